@@ -15,8 +15,20 @@
 
    As in the property text, strings with a '/' before the first '@' are outside the
    parse and reject clauses (hypotheses [~ In c_slash ...] on the text before the
-   first '@'); the round-trip clause needs no such exclusion: it is stated for every
-   string the parser accepts. *)
+   first '@'); the round-trip clause and the two characterisations C15_accepts_iff /
+   C15_rejects_iff need no such exclusion: they are stated for every string.  (On
+   that class the correspondence run projects model and code to a constant, so there
+   the unrestricted theorems describe the model only - nothing is asserted of the code,
+   as the property says.)
+
+   "For all strings": a Go string is any byte sequence.  An element of [str] is either
+   a Unicode scalar value (one well-formed UTF-8 sequence) or 0x110000 + b for a byte b
+   that is not part of one (Go's own decoding: utf8.DecodeRune width 1).  '@' and '/'
+   are single ASCII bytes, never part of a longer sequence, so strings.SplitN on bytes
+   and split_first on units cut at the same places; strings.IndexFunc hands U+FFFD to
+   the validator for such a byte, which is in neither rejected class, as is every unit
+   >= 0x110000 (C15_invalid_bytes_are_ordinary).  All theorems quantify over all lists
+   of N, hence over all byte strings; the correspondence run sends invalid UTF-8 too. *)
 From Coq Require Import List NArith Bool.
 From XV Require Import Lib.Sx Gen.Generated Model.Jid Proofs.JidP.
 Import ListNotations.
@@ -90,6 +102,41 @@ Proof.
   split; [exact username_valid_iff | exact domain_valid_iff].
 Qed.
 
+(* The converse of C15_parse_parts and the completeness of C15_rejects, for EVERY string:
+   s is accepted with result j exactly when j is a well-formed triple (valid local part,
+   valid non-empty domain, and no '@' in the resource of a domain JID) and s is its
+   rendering - or its rendering followed by one '/', when j has no resource ("d/" and
+   "l@d/" read as "no resource").  Nothing else is accepted. *)
+Theorem C15_accepts_iff : forall (s : str) (j : jid),
+  new_jid s = Ok j <->
+  (valid_local (node j) /\ valid_domain (domain j) /\
+   (node j = [] -> ~ In c_at (resource j)) /\
+   (s = full j \/ (resource j = [] /\ s = full j ++ [c_slash]))).
+Proof. exact accepts_iff. Qed.
+
+(* ... and s is rejected exactly when it is the rendering of no well-formed triple. *)
+Theorem C15_rejects_iff : forall s : str,
+  new_jid s = Err <->
+  (forall j, valid_local (node j) -> valid_domain (domain j) ->
+     (node j = [] -> ~ In c_at (resource j)) ->
+     s <> full j /\ ~ (resource j = [] /\ s = full j ++ [c_slash])).
+Proof. exact rejects_iff. Qed.
+
+(* "White space" is pinned: the table dumped from the toolchain's unicode.IsSpace on
+   this run is exactly Unicode's White_Space property, 25 code points.  With an empty
+   or different dump this obligation fails (and with it the check). *)
+Theorem C15_space_table :
+  Generated.unicode_space =
+  [9; 10; 11; 12; 13; 32; 133; 160; 5760; 8192; 8193; 8194; 8195; 8196; 8197; 8198; 8199;
+   8200; 8201; 8202; 8232; 8233; 8239; 8287; 12288].
+Proof. exact unicode_space_table. Qed.
+
+(* A byte that is not part of well-formed UTF-8 (unit 0x110000 + b; U+FFFD in the eyes of
+   Go's rune functions) is an ordinary character: in neither rejected class. *)
+Theorem C15_invalid_bytes_are_ordinary : forall c : N,
+  1114112 <= c \/ c = 65533 -> ~ bad_local_char c /\ ~ bad_domain_char c.
+Proof. exact high_unit_ok. Qed.
+
 (* Full() and Bare() render every parsed JID so that parsing the rendering gives the
    same JID back (without the resource for Bare) - also for a domain JID that has a
    resource.  For every string s, no exclusion. *)
@@ -97,6 +144,14 @@ Theorem C15_roundtrip : forall (s : str) (j : jid),
   new_jid s = Ok j ->
   new_jid (full j) = Ok j /\ new_jid (bare j) = Ok (strip_resource j).
 Proof. exact roundtrip. Qed.
+
+(* The same for a Jid value however it was obtained (built by hand from a triple over
+   the accepted classes), not only for one that NewJid returned. *)
+Theorem C15_roundtrip_triples : forall l d r : str,
+  valid_local l -> valid_domain d -> (l = [] -> ~ In c_at r) ->
+  new_jid (full (mkJid l d r)) = Ok (mkJid l d r) /\
+  new_jid (bare (mkJid l d r)) = Ok (mkJid l d []).
+Proof. intros l d r. exact (roundtrip_wf (mkJid l d r)). Qed.
 
 (* non-vacuity: "u1@d.x/r/@", the domain JID with a resource "d.x/r" and "[::1]" meet the
    hypotheses; a space inside the local part is a bad_local_char *)
@@ -106,7 +161,13 @@ Example C15_example :
   new_jid [117; 49; 64; 100; 46; 120; 47; 114; 47; 64] = Ok (mkJid [117; 49] [100; 46; 120] [114; 47; 64]) /\
   new_jid [100; 46; 120; 47; 114] = Ok (mkJid [] [100; 46; 120] [114]) /\
   full (mkJid [] [100; 46; 120] [114]) = [100; 46; 120; 47; 114] /\
-  new_jid [117; 32; 49; 64; 100] = Err.
+  new_jid [117; 32; 49; 64; 100] = Err /\
+  (* white space: members at both ends of the table and in the middle; look-alikes that are not *)
+  bad_local_char 9 /\ bad_domain_char 12288 /\ bad_local_char 8232 /\ bad_domain_char 133 /\
+  ~ bad_local_char 8203 /\ ~ bad_domain_char 65279 /\ ~ bad_local_char 31 /\
+  (* "d.x/" is accepted as the domain JID d.x; an invalid byte 0xFF inside a local part is kept *)
+  new_jid [100; 46; 120; 47] = Ok (mkJid [] [100; 46; 120] []) /\
+  new_jid [117; 1114367; 64; 100] = Ok (mkJid [117; 1114367] [100] []).
 Proof.
   split; [apply username_valid_iff; reflexivity|].
   split; [apply domain_valid_iff; reflexivity|].
@@ -115,10 +176,20 @@ Proof.
   split; [right; apply mem_In; reflexivity|].
   split; [right; apply mem_In; reflexivity|].
   split; [apply domain_valid_iff; reflexivity|].
-  repeat split; reflexivity.
+  do 4 (split; [reflexivity|]).
+  do 4 (split; [left; apply mem_In; reflexivity|]).
+  split; [intros H; apply is_invalid_iff in H; discriminate|].
+  split; [intros H; apply is_invalid_iff in H; discriminate|].
+  split; [intros H; apply is_invalid_iff in H; discriminate|].
+  split; reflexivity.
 Qed.
 
 Print Assumptions C15_parse_parts.
 Print Assumptions C15_rejects.
 Print Assumptions C15_forbidden_sets.
 Print Assumptions C15_roundtrip.
+Print Assumptions C15_accepts_iff.
+Print Assumptions C15_rejects_iff.
+Print Assumptions C15_space_table.
+Print Assumptions C15_invalid_bytes_are_ordinary.
+Print Assumptions C15_roundtrip_triples.
